@@ -26,6 +26,28 @@ CLS = ["sn", "st", "lg", "oa"]
 HERE = os.path.join(vlib.VERIF, "harness", "evt")
 
 
+def run_lines(exe, lines, prefix, timeout=900, max_crashes=6):
+    """evt.run_lines with a small cap on sanitizer aborts: every abort costs seconds (report + restart), and a handful of
+    concrete aborting inputs is all a verdict needs.  Lines after the cap stay unvalidated (output None)."""
+    out = [None] * len(lines)
+    crashes = []
+    start = 0
+    env = dict(os.environ, ASAN_OPTIONS="detect_leaks=0:abort_on_error=0:symbolize=1", UBSAN_OPTIONS="print_stacktrace=1")
+    t0 = time.time()
+    while start < len(lines) and len(crashes) < max_crashes:
+        inp = "".join(prefix + l + "\n" for l in lines[start:])
+        r = subprocess.run([exe], input=inp, capture_output=True, text=True, timeout=max(60, timeout - (time.time() - t0)), env=env)
+        complete = r.stdout.split("\n")[:-1]
+        n = min(len(complete), len(lines) - start)
+        for k in range(n):
+            out[start + k] = complete[k]
+        if (r.returncode == 0 and n == len(lines) - start) or start + n >= len(lines):
+            break
+        crashes.append((start + n, evt.crash_site(r.stderr), r.stderr[-3000:]))
+        start = start + n + 1
+    return out, crashes
+
+
 # ------------------------------------------------------------------ any_object / any_unique sequences
 class AnyGen:
     """type-directed generator: keeps a rough picture of which slots are engaged / moved-from so that
@@ -179,7 +201,7 @@ class AnyObjPart:
         mal = [g.malformed(f"m{i}") for i in range(nm)]
         lines = corpus + valid + mal
         try:
-            impl, crashes = evt.run_lines(exe, lines, "case ")
+            impl, crashes = run_lines(exe, lines, "case ")
         except subprocess.TimeoutExpired:
             verdict.add("anyobj: harness timeout", "any_object harness timed out", dict(stream="anyobj"), found_input=False)
             return
@@ -287,14 +309,14 @@ class WrapInsertPart:
             wrapped.append(w)
             where[node] = where.get(node, 0) + 1
         try:
-            a, ca = evt.run_lines(exe, orig, "case ")
+            a, ca = run_lines(exe, orig, "case ")
             # an expression that aborts WITHOUT the extra wrapper (sanitizer findings are C02's business)
             # says nothing about the wrapper: drop those pairs
             crashed_orig = {k for k, _, _ in ca}
             skipped = len(crashed_orig)
             keep = [k for k in range(len(orig)) if k not in crashed_orig]
             orig = [orig[k] for k in keep]; wrapped = [wrapped[k] for k in keep]; a = [a[k] for k in keep]
-            b, cb = evt.run_lines(exe, wrapped, "case ")
+            b, cb = run_lines(exe, wrapped, "case ")
         except subprocess.TimeoutExpired:
             verdict.add("wrapinsert: harness timeout", "event harness timed out", dict(stream="wrapinsert"), found_input=False)
             return
@@ -366,7 +388,7 @@ class TokenAdapterPart:
                 p[3] = p[3].replace("start", "start stop", 1)
                 lines[i] = "|".join(p)
         try:
-            impl, crashes = evt.run_lines(exe, lines, "case ")
+            impl, crashes = run_lines(exe, lines, "case ")
         except subprocess.TimeoutExpired:
             verdict.add("tokadapter: harness timeout", "evt_tok harness timed out", dict(stream="tokadapter"), found_input=False)
             return
@@ -374,7 +396,7 @@ class TokenAdapterPart:
         if crashes:
             # does the same expression abort with the plain inplace_stop_token root as well?
             sub = [lines[k] for k, _, _ in crashes]
-            _, pc = evt.run_lines(plain, sub, "case ")
+            _, pc = run_lines(plain, sub, "case ")
             also = {sub[k] for k, _, _ in pc}
             for k, site, err in crashes:
                 if lines[k] in also:
@@ -419,7 +441,7 @@ class DirectPart:
         if not os.path.exists(src):
             return
         try:
-            exe = vlib.build_plain(src, ["inplace_stop_token.cpp", "manual_event_loop.cpp"], (), None, sanitize="address,undefined", name="anysched")
+            exe = vlib.build_plain(src, ["inplace_stop_token.cpp", "manual_event_loop.cpp", "async_stack.cpp"], (), None, sanitize="address,undefined", name="anysched")
         except vlib.BuildError as e:
             verdict.add("direct:build", "anysched harness does not build against the current tree: " + str(e)[-1500:], dict(stream="direct"), found_input=False)
             return
